@@ -1833,6 +1833,33 @@ class _Desugar(ast.NodeTransformer):
 
     def _rewrite(self, ret):
         v = ret.value
+        if isinstance(v, ast.Call) and isinstance(v.func, ast.Name) and \
+                v.func.id == 'next' and len(v.args) == 2 and \
+                not v.keywords and \
+                isinstance(v.args[0], ast.GeneratorExp) and \
+                len(v.args[0].generators) == 1 and \
+                not v.args[0].generators[0].is_async:
+            # return next((e for t in it if c), d)  ->
+            # for t in it: if c: return e  /  return d
+            import copy as _c
+            g = v.args[0].generators[0]
+            tgt = _c.deepcopy(g.target)
+            for n in ast.walk(tgt):
+                if isinstance(n, ast.Name):
+                    n.ctx = ast.Store()
+
+            def loc(n):
+                return ast.copy_location(n, ret)
+            found = [loc(ast.Return(value=v.args[0].elt))]
+            body = found
+            if g.ifs:
+                test = g.ifs[0] if len(g.ifs) == 1 else \
+                    ast.BoolOp(op=ast.And(), values=list(g.ifs))
+                body = [loc(ast.If(test=test, body=found, orelse=[]))]
+            loop = loc(ast.For(target=tgt, iter=g.iter, body=body,
+                               orelse=[], lineno=ret.lineno))
+            tail = self._unroll([loop])
+            return tail + [loc(ast.Return(value=v.args[1]))]
         neg = False
         if isinstance(v, ast.UnaryOp) and isinstance(v.op, ast.Not):
             neg, v = True, v.operand
